@@ -47,6 +47,8 @@ func newStats() *Stats {
 
 func (s *Stats) Add(k string, n int64) { s.mu.Lock(); s.Counters[k] += n; s.mu.Unlock() }
 
+func (s *Stats) Get(k string) int64 { s.mu.Lock(); defer s.mu.Unlock(); return s.Counters[k] }
+
 func (s *Stats) Sample(x interface{}) {
 	s.mu.Lock()
 	if len(s.Samples) < 4 {
